@@ -53,6 +53,7 @@ def _alphabet():
   syms["AveragePooling2D"] = ("AveragePooling2D", 4, 4, dict(pool_size=2))
   syms["GlobalAveragePooling2D"] = ("GlobalAveragePooling2D", 4, 2, {})
   syms["BatchNormalization"] = ("BatchNormalization", None, None, {})
+  syms["BatchNormalization_stats"] = ("BatchNormalization", None, None, dict(center=False, scale=False))
   for a in ("relu", "tanh", "sigmoid", "softmax", "linear"):
     syms["Activation_" + a] = ("Activation", None, None, dict(activation=a))
   syms["ReLU"] = ("ReLU", None, None, {})
@@ -74,7 +75,7 @@ WEIGHT_KEYS = {
     "GRU": ["kernel_quantizer", "recurrent_quantizer", "bias_quantizer"],
     "AveragePooling2D": ["average_quantizer"], "GlobalAveragePooling2D": ["average_quantizer"],
 }
-MODES = ["class", "absent", "name", "name+class"]
+MODES = ["class", "absent", "name", "name+class", "partialname+class"]
 
 
 def bound(tier):
@@ -153,7 +154,7 @@ def enumerate_cases(tier, seed):
           continue
         if ALPHABET[a][1] is None and in_rank != (ALPHABET[b][1] or 4) and ALPHABET[a][2] is None:
           continue
-        for modes in (["class", "class"], ["name+class", "absent"], ["absent", "name"]):
+        for modes in (["class", "class"], ["name+class", "absent"], ["absent", "name"], ["partialname+class", "class"]):
           out.append(dict(kind="chain", seq=[a, b], in_rank=in_rank, modes=modes, bits=4, transfer=True, form="functional"))
   if tier == "thorough":
     core = ["Dense_br", "Conv2D_br", "DepthwiseConv2D_nl", "BatchNormalization", "Activation_relu", "ReLU", "Flatten",
@@ -184,6 +185,8 @@ def build_model(case):
   for s, n in zip(case["seq"], names):
     cls, _, _, kw = ALPHABET[s]
     layers.append(getattr(L, cls)(name=n, **kw))
+    if case.get("frozen"):
+      layers[-1].trainable = False
   if case["kind"] == "diamond":
     inp = L.Input(shape, name="inp")
     a = layers[0](inp)
@@ -233,10 +236,19 @@ def build_dict(case, names):
     cls = ALPHABET[s][0]
     if entry_for(cls, 0) is None:
       continue
-    if mode in ("class", "name+class"):
+    if mode in ("class", "name+class", "partialname+class"):
       d[qclass_key(cls)] = entry_for(cls, 0)
     if mode in ("name", "name+class"):
       d[n] = entry_for(cls, 1)
+    if mode == "partialname+class":
+      # a name entry that sets only the main weight quantizer (or is empty): it replaces the class entry as a whole,
+      # nothing is inherited from the class entry
+      e = entry_for(cls, 1)
+      if isinstance(e, dict) and cls in WEIGHT_KEYS:
+        e = {WEIGHT_KEYS[cls][0]: e[WEIGHT_KEYS[cls][0]]}
+      elif isinstance(e, dict):
+        e = {}
+      d[n] = e
   return d
 
 
